@@ -135,7 +135,8 @@ def wrapJudge (f : List String) (out : String) : String :=
   | some c, [g, p] =>
     match parseObs g, parseObs p with
     | some g, some p => verdict c.ae g p
-    | _, _ => "bad:unparsable:" ++ out
+    | _, _ => if (out.splitOn "X-").length > 1 then "bad:undecodable:the body is not a complete stream of the coding it starts with"
+              else "bad:unparsable:" ++ out
   | _, _ => "bad:unparsable:" ++ out
 
 def parseSiblings (s : String) : List Coding :=
@@ -179,7 +180,8 @@ def staticJudge (f : List String) (out : String) : String :=
   | some c, [g, p] =>
     match parseObs g, parseObs p with
     | some g, some p => staticVerdict c.ae c.content g p
-    | _, _ => "bad:unparsable:" ++ out
+    | _, _ => if (out.splitOn "X-").length > 1 then "bad:undecodable:the body is not a complete stream of the coding it starts with"
+              else "bad:unparsable:" ++ out
   | _, _ => "bad:unparsable:" ++ out
 
 def streams : List Driver.Stream := [
